@@ -149,7 +149,8 @@ def _case(args):
             par = maptrace.all_parents(tj)
             p = par[len(par) // 2]
             key = None if p == [0, 0] else (nm.level(p[0]), nm.node(p[0], p[1]))
-            override = {key: c['Nper'] + 1} if key is not None else None
+            # the root is addressed by the key None
+            override = {key: c['Nper'] + 1}
         P, beh = (c['P'], c['behemoth']) if variant is None else variant
         os.makedirs(os.path.join(d, 'scratch'))
         with warnings.catch_warnings(), build.redirect_fds(os.path.join(d, 'stdio.txt')):
@@ -179,7 +180,7 @@ def _case(args):
             pj = json.dumps(None if p == [0, 0] else [nm.level(p[0]), nm.node(p[0], p[1])])
             res = [build.gene_id(g, scheme) for g in lk.get(key, [])]
             nper = c['Nper']
-            if override and p != [0, 0] and (nm.level(p[0]), nm.node(p[0], p[1])) in override:
+            if override and (None if p == [0, 0] else (nm.level(p[0]), nm.node(p[0], p[1]))) in override:
                 nper = c['Nper'] + 1
             t = {'tree': tj, 'parent': p, 'Nper': nper, 'qgenes': c['qgenes'], 'table': c['table'],
                  'pairs': [], 'events': []}
